@@ -73,6 +73,8 @@ type Rule struct {
 	Codes []int  `json:"codes,omitempty"` // code sequence (consumed one per match) for do=codes
 	Seq   int    `json:"seq,omitempty"`   // UpstreamChunk only: restrict to this sequence number
 	Gate  string `json:"gate,omitempty"`  // holdWrite: gate name the client-side Write waits on
+	Obj   string `json:"obj,omitempty"`   // restrict to requests of this stream (script object name, resolved to Sid when installed)
+	Sid   string `json:"-"`
 	seen  int
 	used  int
 }
@@ -233,6 +235,28 @@ func (b *Broker) findRule(kind string, inc int, actions ...string) *Rule {
 			}
 		}
 		if !ok {
+			continue
+		}
+		if r.match(kind, inc) {
+			r.used++
+			return r
+		}
+	}
+	return nil
+}
+
+// findRuleSid is findRule restricted to rules without a stream restriction or whose stream matches.
+func (b *Broker) findRuleSid(kind string, inc int, sid string, actions ...string) *Rule {
+	b.mu.Lock()
+	defer b.mu.Unlock()
+	for _, r := range b.rules {
+		ok := false
+		for _, a := range actions {
+			if r.Do == a {
+				ok = true
+			}
+		}
+		if !ok || (r.Sid != "" && r.Sid != sid) {
 			continue
 		}
 		if r.match(kind, inc) {
@@ -562,7 +586,13 @@ func (i *Inc) respond(kind string, rid uint32, mk func(code message.ResultCode, 
 	if silent {
 		return
 	}
-	if r := b.findRule(kind, i.c, "drop", "delay", "code", "codes", "misaddr", "cutOnRecv", "hold"); r != nil {
+	reqSid := ""
+	for k := 0; k+1 < len(kv); k += 2 {
+		if kv[k] == "sid" {
+			reqSid, _ = kv[k+1].(string)
+		}
+	}
+	if r := b.findRuleSid(kind, i.c, reqSid, "drop", "delay", "code", "codes", "misaddr", "cutOnRecv", "hold"); r != nil {
 		switch r.Do {
 		case "drop":
 			b.rec.Log("Fault", "c", i.c, "do", "drop", "on", kind, "rid", int(rid))
